@@ -15,7 +15,7 @@ import (
 func init() {
 	register(&Def{
 		ID: "C05",
-		Explanation: "Structural necessary conditions of 'links are a function of value and prototype': Store and ComputeLink derive the link identically (encoder and hasher chosen from the same prototype parameter in this activation, the encoder's writer reaches that hasher, link = lp.BuildLink(H.Sum()), the committed link is the returned link); the multicodec-registry choosers look codecs/hashers up only by the link/prototype they are given; load-side choosers are asked about the requested link; storage is keyed by lnk.Binary() on both sides; no operational LinkSystem method or chooser writes a LinkSystem field or package-level variable (nothing depends on previous operations). " +
+		Explanation: "Structural necessary conditions of 'links are a function of value and prototype': Store and ComputeLink derive the link identically (encoder and hasher chosen from the same prototype parameter in this activation, the encoder's writer reaches that hasher, link = lp.BuildLink(H.Sum()), the committed link is the returned link); the multicodec-registry choosers look codecs/hashers up only by the link/prototype they are given; load-side choosers are asked about the requested link; storage is keyed by lnk.Binary() on both sides; no operational LinkSystem method or chooser writes a LinkSystem field or package-level variable (nothing depends on previous operations).  (chooserrefuses) the choosers of the registry-based link system refuse only what the registry refuses or a foreign prototype type." +
 			"Codec determinism (C02/C04) and BuildLink arithmetic are not decided.",
 		NotCovered: []string{"determinism of the codecs themselves", "BuildLink truncation / CID version arithmetic", "equality of loaded node with stored node"},
 		Trusted:    []string{"go/ssa, go/types", "hash.Hash, io.MultiWriter semantics", "multicodec.Registry lookups are pure (C20.globals)"},
